@@ -479,9 +479,11 @@ class FetchAtt:
 
         # We need to always terminate with crlf.
         #
-        msg_text = (
-            msg_text if msg_text.endswith(b"\r\n") else msg_text + b"\r\n"
-        )
+        # Make sure the text ends with a line break. (Nothing is still
+        # nothing: the TEXT of a message without a body is empty.)
+        #
+        if msg_text and not msg_text.endswith(b"\r\n"):
+            msg_text += b"\r\n"
 
         # If this is a partial only return the bits asked for.
         #
